@@ -21,9 +21,22 @@ class Side(object):
         self.errors = []           # exceptions escaping serve() while idle
         self.thread = pair.sched.spawn(name, self._loop)
 
+    def readable(self):
+        st = self.stream
+        if hasattr(st, "inbox"):                      # SimStream
+            return st._readable()
+        if st.closed:                                 # real SocketStream over a FakeSocket
+            return True
+        return st.sock._readable()
+
     def _ready(self):
-        return bool(self.cmds) or (self.pair.autoserve and bool(self.stream.inbox) and not self.stream.closed
-                                   and not self.conn.closed)
+        if self.cmds:
+            return True
+        if not self.pair.autoserve or self.conn.closed:
+            return False
+        if self.pair.serve_eof:
+            return self.readable()
+        return bool(getattr(self.stream, "inbox", b"")) and not self.stream.closed
 
     def _loop(self):
         s = self.pair.sched
@@ -76,14 +89,31 @@ class Side(object):
 
 class Pair(object):
     def __init__(self, service_a, service_b, config_a=None, config_b=None, manual=False, compress=True,
-                 autoserve=True, patch_time=True):
+                 autoserve=True, patch_time=True, transport="sim", script=None, serve_eof=False):
         self.sched = s = sim.make_sched()
         self.undo_time = sim.patch_time(s) if patch_time else (lambda: None)
         self.autoserve = autoserve
-        ca, cb, net = sim.connect_pair(s, service_a, service_b, config_a, config_b, manual=False, compress=compress)
+        self.serve_eof = serve_eof     # idle sides also serve when only an end-of-stream / closed stream is visible
+        self._undo = []
+        if transport == "sim":
+            ca, cb, net = sim.connect_pair(s, service_a, service_b, config_a, config_b, manual=False, compress=compress)
+            sa, sb = net.a, net.b
+        else:
+            # the real SocketStream over scripted fake sockets; Stream.poll uses a fake poll object
+            from rpyc.core import stream as stream_mod
+            from rpyc.core.channel import Channel
+            net = sim.FakeSocketNet(s, script)
+            old = stream_mod.poll
+            stream_mod.poll = type("BoundFakePoll", (sim.FakePoll,), {"net": net})
+            self._undo.append(lambda: setattr(stream_mod, "poll", old))
+            sa, sb = stream_mod.SocketStream(net.a), stream_mod.SocketStream(net.b)
+            ca = service_a._connect(Channel(sa, compress=compress), config_a or {})
+            cb = service_b._connect(Channel(sb, compress=compress), config_b or {})
+            sim.simulate_conn_locks(s, ca, "A")
+            sim.simulate_conn_locks(s, cb, "B")
         self.net = net
-        self.a = Side(self, "A", ca, net.a)
-        self.b = Side(self, "B", cb, net.b)
+        self.a = Side(self, "A", ca, sa)
+        self.b = Side(self, "B", cb, sb)
         s.settle()
         net.manual = manual
         self._decoded = 0
@@ -137,3 +167,5 @@ class Pair(object):
     def close(self):
         self.sched.abort()
         self.undo_time()
+        for u in self._undo:
+            u()
